@@ -408,10 +408,10 @@ func variants(seed int64, thorough bool) []variant {
 		}
 		// kinds that are "free" so that the second site is reached if the first is accepted
 		ka, kb := kindsOf[a.class][rnd.Intn(len(kindsOf[a.class]))], kindsOf[b.class][rnd.Intn(len(kindsOf[b.class]))]
+		// no "must reject" claim for pairs: one substitution can void the context of the other (a null map key makes the
+		// YAML decoder drop the whole entry, with the unknown step type inside it); pairs are held to "never a crash, and
+		// what is accepted instantiates and processes records"
 		must := "free"
-		if ka.must == "reject" || kb.must == "reject" {
-			must = "reject"
-		}
 		text := siteRe.ReplaceAllStringFunc(baseText, func(m string) string {
 			p := siteRe.FindStringSubmatch(m)
 			switch p[2] {
